@@ -427,6 +427,10 @@ func (tps *TPS) waitForDeCommitmentDistribution(ctx context.Context) error {
 }
 
 func (tps *TPS) combineShares() PK {
+	// Shares and public keys are written by OnMsg concurrently
+	tps.lock.Lock()
+	defer tps.lock.Unlock()
+
 	for _, party := range tps.parties {
 		if party == tps.Party {
 			continue
